@@ -1,9 +1,228 @@
-// build probe for hooks H2-H4 (replaced by the real check)
-use p3_circuit_prover::verif_hooks::set_matrix_tamper;
+//! C04 — "An accepted circuit proof attests a satisfying assignment"  (fault enumeration)
+//!
+//! For every circuit of the E3 catalogue: EVERY single fault of the classes
+//!   F1  one cell of one main-trace matrix += 1            (hook H4, all cells incl. padding)
+//!   F2  one witness slot changed at its definition, everything downstream recomputed
+//!       (constants, public / private inputs, hint outputs, ALU results, NPO outputs —
+//!       exposed or hidden —, private Merkle siblings)
+//!   F3  one slot += 1 in every row scalar that mentions it, nothing recomputed
+//!   F4  one input port of one row reads value+1 (row-local), the row's result propagated
+//! is applied to the honest traces; the repository's real `prove_all_tables` +
+//! `verify_all_tables` (release) gives the verdict; the reference predicate
+//! (`vpe3::predicate`) says whether the committed values still are one satisfying assignment.
+//!
+//!   violation  ⇔  accepted  ∧  ¬predicate
+//!
+//! Rejected faults, and accepted faults whose committed values are a (different) valid
+//! witness, are fine. Keys: `accepted:<class>:<table>:<port role>` — fault class + table /
+//! op kind + port role, never a cell index.
+
+use std::collections::BTreeMap;
+use std::sync::Mutex;
+use std::sync::atomic::{AtomicBool, Ordering};
+
+use vpcore::rayon::prelude::*;
+use vpcore::serde_json::{Value, json};
+use vpcore::{Ctx, Histo, Report, finish};
+use vpe3::catalogue::{QUICK, Spec, catalogue};
+use vpe3::{Case, Fault, Outcome};
+
+fn describe_outcome(o: &Outcome) -> Value {
+    json!({
+        "key": o.key(),
+        "verdict": o.verdict.as_ref().map(|v| v.long()).unwrap_or_else(|| "inapplicable".into()),
+        "predicate": format!("{:?}", o.pred),
+        "noop": o.noop,
+        "note": o.note,
+    })
+}
+
+fn what(case: &str, f: &Fault, o: &Outcome) -> String {
+    format!(
+        "circuit {case}: fault {} is ACCEPTED by prove_all_tables+verify_all_tables although the committed values are not a satisfying assignment ({})",
+        f.to_json(),
+        match &o.pred {
+            vpe3::Pred::Fails(c) => c.detail.clone(),
+            other => format!("{other:?}"),
+        }
+    )
+}
+
 fn main() {
-    set_matrix_tamper(None);
-    let _ = p3_recursion::pcs::fri::verifier_verif_hooks::circuit_exp_by_constant::<p3_baby_bear::BabyBear>;
-    let _ = p3_recursion::pcs::mmcs::verif_select_cap_entry::<p3_baby_bear::BabyBear>;
-    eprintln!("MACHINERY-ERROR: check c04 not built yet");
-    std::process::exit(2);
+    vpcore::install_quiet_panic_hook();
+    let ctx = Ctx::from_args("C04", "fault_enumeration");
+    let report = Report::new();
+    let specs = catalogue();
+
+    // ---------------------------------------------------------------- replay of one case
+    if let Some(path) = &ctx.replay {
+        let r = vpcore::load_replay(path);
+        let name = r["circuit"].as_str().unwrap_or("").to_string();
+        let fault = Fault::from_json(&r["fault"])
+            .unwrap_or_else(|| vpcore::machinery_error("replay: unreadable fault"));
+        let spec = specs
+            .iter()
+            .find(|s| s.name == name)
+            .unwrap_or_else(|| vpcore::machinery_error(&format!("replay: unknown circuit {name}")));
+        let case = (spec.build)().unwrap_or_else(|e| vpcore::machinery_error(&e));
+        let o = case.evaluate(&fault);
+        println!("replay {name} {}: {}", fault.to_json(), describe_outcome(&o));
+        if o.violation() {
+            report.violation(
+                o.key(),
+                what(&name, &fault, &o),
+                json!({"circuit": name, "fault": fault.to_json()}),
+            );
+        }
+        let cov = json!({"evaluations": 1, "distinct_nontrivial": o.pred.fails() as u64,
+            "rule": "replay of one stored fault", "samples": [describe_outcome(&o)], "replay": true});
+        finish(&ctx, cov, vec![], &report);
+    }
+
+    // ---------------------------------------------------------------- tier
+    let only = ctx.opt("circuit").map(|s| s.to_string());
+    let selected: Vec<&Spec> = specs
+        .iter()
+        .filter(|s| match &only {
+            Some(o) => s.name == o,
+            None => !ctx.quick() || QUICK.contains(&s.name),
+        })
+        .collect();
+    if selected.is_empty() {
+        vpcore::machinery_error("no circuit selected");
+    }
+    // thorough: the +1 is also applied to the top basis element in F2-F4 (F1 covers every
+    // limb cell anyway)
+    let histo = Histo::new();
+    let per_class = Histo::new();
+    let samples: Mutex<Vec<Value>> = Mutex::new(vec![]);
+    let timed_out = AtomicBool::new(false);
+    let mut circuits_json = vec![];
+    let (mut evaluations, mut nontrivial, mut accepted_false, mut accepted_valid) = (0u64, 0u64, 0u64, 0u64);
+    let (mut inapplicable, mut noops, mut unknown) = (0u64, 0u64, 0u64);
+
+    // fixtures are independent: build them in parallel
+    let built: Vec<(&Spec, Result<Box<dyn Case>, String>)> = selected
+        .par_iter()
+        .map(|s| (*s, vpcore::quiet_catch(|| (s.build)()).unwrap_or_else(Err)))
+        .collect();
+
+    for (spec, case) in built {
+        let case = match case {
+            Ok(c) => c,
+            Err(e) => vpcore::machinery_error(&format!("fixture {}: {e}", spec.name)),
+        };
+        let units: Vec<usize> = if ctx.quick() || case.degree() == 1 {
+            vec![0]
+        } else {
+            vec![0, case.degree() - 1]
+        };
+        let faults = case.faults(&units);
+        let t0 = ctx.elapsed_s();
+        let outcomes: Vec<Option<Outcome>> = faults
+            .par_iter()
+            .map(|f| {
+                if ctx.out_of_time() {
+                    timed_out.store(true, Ordering::Relaxed);
+                    return None;
+                }
+                Some(case.evaluate(f))
+            })
+            .collect();
+        // sequential, in enumeration order: the first case of a key is the stored replay
+        let mut done = 0u64;
+        let mut class_counts: BTreeMap<String, u64> = BTreeMap::new();
+        for (f, o) in faults.iter().zip(outcomes.iter()) {
+            let Some(o) = o else { continue };
+            done += 1;
+            *class_counts.entry(f.class().to_string()).or_default() += 1;
+            let v = match &o.verdict {
+                None => {
+                    inapplicable += 1;
+                    "inapplicable".to_string()
+                }
+                Some(_) if o.noop => {
+                    noops += 1;
+                    "noop".to_string()
+                }
+                Some(v) => v.short(),
+            };
+            histo.add(&format!(
+                "{}|{}|{} -> {} / predicate {}",
+                o.site.class, o.site.table, o.site.role, v, o.pred.short()
+            ));
+            per_class.add(&format!("{} -> {} / predicate {}", o.site.class, v, o.pred.short()));
+            if matches!(o.pred, vpe3::Pred::Unknown(_)) && o.verdict.is_some() {
+                unknown += 1;
+            }
+            if o.pred.fails() {
+                nontrivial += 1;
+            }
+            let acc = o.verdict.as_ref().is_some_and(|v| v.accepted()) && !o.noop;
+            if acc && !o.pred.fails() {
+                accepted_valid += 1;
+            }
+            if o.violation() {
+                accepted_false += 1;
+                report.violation(
+                    o.key(),
+                    what(case.name(), f, o),
+                    json!({"circuit": case.name(), "fault": f.to_json(), "outcome": describe_outcome(o)}),
+                );
+            }
+            let mut s = samples.lock().unwrap();
+            let want = s.len() < 12
+                && (o.violation() || (acc && s.len() < 8) || o.pred.fails() && s.len() < 4);
+            if want {
+                s.push(json!({"circuit": case.name(), "fault": f.to_json(), "outcome": describe_outcome(o)}));
+            }
+        }
+        evaluations += done;
+        let mut d = case.describe();
+        d["covers"] = json!(spec.covers);
+        d["faults_enumerated"] = json!(faults.len());
+        d["faults_evaluated"] = json!(done);
+        d["by_class"] = json!(class_counts);
+        d["wall_s"] = json!(ctx.elapsed_s() - t0);
+        d["delta_units"] = json!(units);
+        eprintln!(
+            "{}: {} / {} faults in {:.1}s",
+            case.name(),
+            done,
+            faults.len(),
+            ctx.elapsed_s() - t0
+        );
+        circuits_json.push(d);
+    }
+
+    let exhaustive = !timed_out.load(Ordering::Relaxed);
+    let cov = json!({
+        "evaluations": evaluations,
+        "distinct_nontrivial": nontrivial,
+        "rule": "one evaluation = one single fault (class F1 cell+1 / F2 slot changed with forward propagation / F3 slot changed in all rows without propagation / F4 row-local port deviation with propagation) applied to the honest traces of one catalogue circuit, proved and verified by the real prover/verifier; faults are all distinct by construction (every cell, slot, port once per delta unit); non-trivial = the reference predicate is FALSE on the committed values (the fault really breaks 'one satisfying assignment'), so a correct verifier must reject it",
+        "samples": *samples.lock().unwrap(),
+        "exhaustive": exhaustive,
+        "circuits": circuits_json,
+        "accepted_and_predicate_false": accepted_false,
+        "accepted_and_predicate_true_or_unknown": accepted_valid,
+        "inapplicable_faults": inapplicable,
+        "noop_faults_equal_to_honest": noops,
+        "predicate_unknown": unknown,
+        "verdict_histogram_per_class": per_class.to_json(),
+        "verdict_histogram_per_class_table_role": histo.to_json(),
+        "catalogue_size": specs.len(),
+        "circuits_in_tier": selected.iter().map(|s| s.name).collect::<Vec<_>>(),
+    });
+    finish(
+        &ctx,
+        cov,
+        vec![
+            "STARK/LogUp soundness: 'the verifier accepts' is read as 'AIR constraints and bus hold'; a violation is only reported when the real verifier really accepted".into(),
+            "the repository's NPO executors with the honest permutation define 'the true function of its inputs' for permutation / recomposition rows".into(),
+            "deviation size is +1 (quick: base unit; thorough: also the top basis element); values are not enumerated, positions are".into(),
+            "matrix cells are decoded by differential probing of the repository's own trace->matrix code; cells that are neither a verbatim copy of a trace scalar nor a permutation output (round states, packed-Horner intermediates, padding) carry no claim: accepting a change there is not counted as a violation".into(),
+            "Merkle arity-4 / width-24/32 permutation tables and Poseidon1 tables are not in the catalogue".into(),
+        ],
+        &report,
+    );
 }
